@@ -30,6 +30,7 @@ import MosaikProofs.Sched.Deadlock
 import MosaikProofs.Sched.Bound
 import MosaikProofs.Sched.Terminate
 import MosaikProofs.Properties.C01
+import MosaikProofs.Build.FlatRank
 namespace Mosaik.C05
 open Mosaik
 
@@ -186,5 +187,34 @@ example : Flat C01.exCfg id := by
 example : ((exec C01.exCfg (initState C01.exCfg) [.start 0, .start 1]).map fun s =>
     (s.failed.isNone, (s.sims 0).pc, (s.sims 1).pc, (step C01.exCfg s (.deps 0)).isSome))
     = some (true, .waitDeps [0], .awaitSettle [2] none, true) := by decide
+
+/-- **deadlock freedom for every scenario without groups** - no hypothesis on the configuration: for every sequence of valid
+`start` / `connect` / `set_initial_event` calls in the main group that `ensure_no_dataflow_cycles` accepts (whatever its pop order),
+the configuration `World.run` derives satisfies `WFCfg`, `WFShape` and `Flat` (`Build.run_config_wf_flat`, `Build.run_config_wfShape`,
+`Build.run_config_flat`: the ranking is the number of zero-delay ancestors, strictly increasing along zero-delay connections because
+the cycle check accepted), so in every reachable non-failed state with an unfinished simulator something can move -/
+theorem deadlock_free_built_flat {ops : List Build.Op} (hv : Build.Valid {} ops) (hf : Build.flatOps ops = true) {orc : List Nat}
+    (hacc : ensureNoCycles (Build.build ops).sims orc = .ok) {orc' : List Nat} {out : List SimCfg}
+    (hc : cacheTriggeringAncestors (Build.build ops).sims orc' = .ok out) (until_ maxLoop : Nat) (lazy_ useCache strict : Bool)
+    {s : State} (hr : Reach (Build.runCfg out until_ maxLoop lazy_ useCache strict) s) (hnf : s.failed = none)
+    (hsome : ∃ p, p < (Build.runCfg out until_ maxLoop lazy_ useCache strict).n ∧ (s.sims p).pc ≠ .done) :
+    (∃ p, (step (Build.runCfg out until_ maxLoop lazy_ useCache strict) s (.start p)).isSome = true) ∨
+    ((∃ p, (step (Build.runCfg out until_ maxLoop lazy_ useCache strict) s (.wake p)).isSome = true) ∨
+     (∃ p, (step (Build.runCfg out until_ maxLoop lazy_ useCache strict) s (.deps p)).isSome = true)) ∨
+    (∃ p, p < (Build.runCfg out until_ maxLoop lazy_ useCache strict).n ∧ ((s.sims p).pc = .inStep ∨ (s.sims p).pc = .inGet)) :=
+  deadlock_free_flat (Build.run_config_wf_flat hv hf hc until_ maxLoop lazy_ useCache strict)
+    (Build.run_config_wfShape hv (Build.flat_uniformT (Build.build_builtOk ops {} Build.builtOk_empty hv) (Build.flatWorld_of_ops hv hf))
+      hc until_ maxLoop lazy_ useCache strict)
+    (Build.run_config_flat hv hf hacc hc until_ maxLoop lazy_ useCache strict) hr hnf hsome
+
+/-- non-vacuity: a flat scenario built by calls (A time-based → B hybrid, trigger connection) is accepted by the cycle check -/
+example :
+    let ops : List Build.Op :=
+      [ .start { ty := .timeBased, group := [], cls := (parseAttrs { anyInputs := false, attrs := some [0, 1, 2, 3] } .timeBased).getD default },
+        .start { ty := .hybrid, group := [], cls := (parseAttrs { anyInputs := false, attrs := some [0, 1, 2, 3], trigger := some [1], nonPersistent := some [3] } .hybrid).getD default },
+        .connect { src := 0, seid := 0, dst := 1, deid := 0, pairs := [(2, 1)] } ]
+    Build.flatOps ops = true ∧ ensureNoCycles (Build.build ops).sims [] = .ok ∧
+      (cacheTriggeringAncestors (Build.build ops).sims []).toOption.isSome = true := by
+  decide
 
 end Mosaik.C05
